@@ -42,6 +42,14 @@ type l1Conf struct {
 	Req   map[string]l1Req `json:"req"`
 	DIus  int              `json:"di_us"` // delayInit in micro seconds (default 3000)
 	Tail  string           `json:"tail"`  // reply kind once the script is used up ("" = ok)
+	// further input dimensions of the driver (zero values = the setting of the first round)
+	DmaxReal int     `json:"dmax_real"` // delayMax in units of delayInit on the real client (0: Dmax; -1: WithDelay(init, 0))
+	TLS      bool    `json:"tls"`       // hosts with TLS enabled: https URLs
+	HostPort bool    `json:"hostport"`  // config.Host.Hostname = Name + ":5000" (name and address differ)
+	RPS      float64 `json:"rps"`       // config.Host.ReqPerSec
+	RBuf     int     `json:"rbuf"`      // buffer size of the reads (0: io.ReadAll)
+	Whence   int     `json:"whence"`    // how Seek is spelled: 0 SeekStart, 1 SeekCurrent, 2 SeekEnd
+	Close2   bool    `json:"close2"`    // Close is called twice
 }
 
 type l1Scn struct {
@@ -94,6 +102,13 @@ func (r *l1Run) hostCfg(name string) *config.Host {
 	}
 	h := config.HostNewName(name)
 	h.Name, h.Hostname, h.TLS = name, name, config.TLSDisabled
+	if r.s.Conf.TLS {
+		h.TLS = config.TLSEnabled
+	}
+	if r.s.Conf.HostPort {
+		h.Hostname = name + ":5000"
+	}
+	h.ReqPerSec = r.s.Conf.RPS
 	h.User, h.Pass = "user-"+name, "pass-"+name
 	h.ReqConcurrent = 100
 	if r.s.Conf.Conc > 0 && r.s.Conf.Conc < 8 {
@@ -168,7 +183,7 @@ func (r *l1Run) RoundTrip(req *http.Request) (*http.Response, error) {
 		_, _ = io.Copy(io.Discard, req.Body)
 		_ = req.Body.Close()
 	}
-	host := req.URL.Host
+	host := strings.TrimSuffix(req.URL.Host, ":5000")
 	r.mu.Lock()
 	r.active = ta
 	id := r.curID
@@ -256,6 +271,15 @@ func (r *l1Run) RoundTrip(req *http.Request) (*http.Response, error) {
 	case "s429ra":
 		status = 429
 		hdr.Set("Retry-After", "1")
+	case "s500ra": // Retry-After on another transient status
+		status = 500
+		hdr.Set("Retry-After", "1")
+	case "s429ra0": // a zero delay is no server-requested delay
+		status = 429
+		hdr.Set("Retry-After", "0")
+	case "s429rad": // the HTTP-date form (not understood by the client: treated as absent by the monitor too)
+		status = 429
+		hdr.Set("Retry-After", time.Now().Add(time.Second).UTC().Format(http.TimeFormat))
 	case "s401n", "s401s":
 		status = 401
 		r.mu.Lock()
@@ -403,7 +427,21 @@ func (r *l1Run) l1Exec(ctx context.Context, client *reghttp.Client, done chan<- 
 				continue
 			}
 			r.rec.add(vtrace.Event{"ev": "read", "id": id, "tc": r.clk.now()})
-			data, err := io.ReadAll(resp)
+			var data []byte
+			var err error
+			if n := r.s.Conf.RBuf; n > 0 {
+				buf := make([]byte, n)
+				for err == nil {
+					var k int
+					k, err = resp.Read(buf)
+					data = append(data, buf[:k]...)
+				}
+				if err == io.EOF {
+					err = nil
+				}
+			} else {
+				data, err = io.ReadAll(resp)
+			}
 			want := []byte{}
 			if rq.Meth == "GET" && pos[id] <= r.s.Conf.N*l1Block {
 				want = r.content(id)[pos[id]:]
@@ -418,7 +456,15 @@ func (r *l1Run) l1Exec(ctx context.Context, client *reghttp.Client, done chan<- 
 			}
 			off := num(st["off"]) * l1Block
 			r.rec.add(vtrace.Event{"ev": "seek", "id": id, "tc": r.clk.now(), "off": off})
-			_, err := resp.Seek(int64(off), io.SeekStart)
+			var err error
+			switch total := r.s.Conf.N * l1Block; {
+			case r.s.Conf.Whence == 1 && pos[id] <= total:
+				_, err = resp.Seek(int64(off-pos[id]), io.SeekCurrent)
+			case r.s.Conf.Whence == 2:
+				_, err = resp.Seek(int64(off-total), io.SeekEnd)
+			default:
+				_, err = resp.Seek(int64(off), io.SeekStart)
+			}
 			pos[id], open[id] = off, err == nil
 			r.rec.add(vtrace.Event{"ev": "ret", "id": id, "call": "seek", "ok": bit(err == nil), "eq": 1, "t": r.clk.now()})
 		case "cancel":
@@ -431,6 +477,9 @@ func (r *l1Run) l1Exec(ctx context.Context, client *reghttp.Client, done chan<- 
 			case "close":
 				if resp := resps[id]; resp != nil {
 					_ = resp.Close()
+					if r.s.Conf.Close2 {
+						_ = resp.Close()
+					}
 				}
 				r.rec.add(vtrace.Event{"ev": "note", "what": "close", "id": id, "t": r.clk.now()})
 			case "pass":
@@ -486,8 +535,14 @@ func runL1(s *l1Scn) *vtrace.Trace {
 		dmax = 4
 	}
 	r.cap = 16 * (s.Conf.R + 1) * len(s.Conf.Hosts)
+	dmaxD := time.Duration(dmax) * r.di
+	if s.Conf.DmaxReal > 0 {
+		dmaxD = time.Duration(s.Conf.DmaxReal) * r.di
+	} else if s.Conf.DmaxReal < 0 {
+		dmaxD = 0 // WithDelay then takes 30 x delayInit
+	}
 	client := reghttp.NewClient(reghttp.WithConfigHostFn(r.hostCfg), reghttp.WithHTTPClient(&http.Client{Transport: r}),
-		reghttp.WithDelay(r.di, time.Duration(dmax)*r.di), reghttp.WithRetryLimit(s.Conf.R))
+		reghttp.WithDelay(r.di, dmaxD), reghttp.WithRetryLimit(s.Conf.R))
 	ctx, cancel := context.WithCancel(context.Background())
 	defer cancel()
 	done := make(chan struct{})
